@@ -20,6 +20,7 @@ import (
 	"os/exec"
 	"path/filepath"
 	"sort"
+	"strconv"
 	"strings"
 	"time"
 
@@ -233,29 +234,44 @@ type c01nKnownSet struct {
 
 func (k c01nKnownSet) has(id string) bool { return k.open[id] }
 
-// classification of a literal under the triggers of the open known findings, per shape
+// classification of a literal under the narrow triggers of the open known findings, per program shape
 func c01nTrigger(s string, inf c01nInfo, tok string, shape string) string {
 	hasSep := strings.Contains(s, "_")
-	switch {
-	case inf.trigBig && shape != "cond" && shape != "not":
-		return "K-C01N-1"
-	case inf.trigBig && shape == "not":
-		return "K-C01N-1"
+	m, e, _ := strings.Cut(inf.norm, "e")
+	underflow := false
+	if !inf.big && m != "0" {
+		if f, err := strconv.ParseFloat(inf.norm, 64); err == nil && f == 0 {
+			underflow = true
+		}
+	}
+	switch shape {
+	case "lit", "dot", "index", "groupdot", "groupindex":
+		if inf.trigBig {
+			return "K-C01N-1" // trigBigRadix
+		}
 	}
 	switch shape {
 	case "groupdot":
 		if tok == "integer" && inf.big {
-			return "K-C01N-2"
+			return "K-C01N-2" // trigGroupBigInt
 		}
-		if tok == "decimal" {
-			return "K-C01N-3" // (5.0).a, (1e2).a, (1_0.5).a: one dot after whatever Number prints
+		if tok == "decimal" && (hasSep || !strings.HasPrefix(e, "-")) {
+			return "K-C01N-3" // trigGroupDecimal: integer value, or separators
 		}
 	case "not":
 		if (tok == "decimal" || tok == "integer") && hasSep {
-			return "K-C01N-4"
+			return "K-C01N-4" // trigNotSep
+		}
+		if underflow {
+			return "K-C01N-6"
 		}
 	case "cond":
-		return "K-C01N-5"
+		if hasSep || tok == "hex" && strings.ContainsAny(s[2:], "bBeE") {
+			return "K-C01N-5" // trigTruthyScan
+		}
+		if underflow {
+			return "K-C01N-6"
+		}
 	}
 	return ""
 }
